@@ -202,6 +202,7 @@ def run(F, res, tier):
     same_class_is_a_no_op(F, res)
     display_is_budgeted(F, res)
     recursion_follows_nesting_not_length(F, res)
+    instantiation_shares_what_the_type_shares(F, res)
     from rules import c09 as _c09
     _c09.groups_scan_every_body(F, res, rule="Q11")
 
@@ -556,6 +557,42 @@ def recursion_follows_nesting_not_length(F, res, rule="Q17"):
            where="crates/ide/src", how="%d recursive call sites, none on a remainder" % n if not bad else "; ".join(sorted(set(bad))[:3]))
 
 
+def instantiation_shares_what_the_type_shares(F, res, rule="Q18"):
+    """Q18: a frozen type is a DAG (the Collector answers a part it has frozen before from its cache, the parts are Arcs), and a
+    caller in another inference group instantiates it by walking it. A walk that makes a fresh table entry per node it *reaches*
+    makes 2^n entries for `let a1 = #(a0, a0) .. let an = #(a(n-1), a(n-1))` in the callee: hover on the caller never answers and the
+    table eats the memory. The recursive function that instantiates a frozen type (it switches on ty::Ty and pushes into the
+    variable table) keeps a map from the parts it has instantiated - told apart by the addresses of their Arcs - to their variables:
+    it looks a part up before it descends and answers from the map, and records the variable it made."""
+    cg = F.callgraph()
+    n, bad = 0, []
+    for p_, f in sorted(F.fns.items()):
+        if not p_.startswith("ide::ty::infer::InferCtx::") or not f.blocks or "{closure" in p_:
+            continue
+        if p_ not in cg.get(p_, ()):
+            continue                        # directly recursive instantiators only
+        d = FL.Defs(f)
+        from rules import c05 as _c05
+        b0, t = _c05.match_on(f, d, "ide::ty::Ty")
+        pushes = [b for b, tt in f.calls() if FL.short(callee(tt) or callee_def(tt) or "") in ("UnionFind::push",)]
+        if t is None or not pushes:
+            continue
+        n += 1
+        keys = [b for b, tt in f.calls() if FL.short(callee(tt) or callee_def(tt) or "").endswith("Arc::as_ptr")]
+        looks = [(b, tt) for b, tt in f.calls() if FL.short(callee(tt) or callee_def(tt) or "") in ("HashMap::get", "HashMap::contains_key", "BTreeMap::get")]
+        unit = [f] + [F.fns[c] for c in F.closures_of(p_) if c in F.fns]
+        looks_any = looks or [(None, tt) for u in unit[1:] for _b, tt in u.calls() if FL.short(callee(tt) or callee_def(tt) or "") in ("HashMap::get", "BTreeMap::get")]
+        stores = [b for b, tt in f.calls() if FL.short(callee(tt) or callee_def(tt) or "") in ("HashMap::insert", "BTreeMap::insert") and any(f.can_reach(pb, [b]) for pb in pushes)]
+        # an early answer: a return reachable from the look-up that avoids every recursive call and every push
+        rec = [b for b, tt in f.calls() if (callee(tt) or "") == p_]
+        early = any(f.can_reach(0, [r], avoid=rec + pushes) for r in f.return_blocks())
+        if not (keys and looks_any and stores and early):
+            bad.append("%s: address keys %d, look-ups %d, records after the push %d, answer without descending: %s" % (FL.short(p_), len(keys), len(looks_any), len(stores), early))
+    res.ob(rule, "instantiate/shared-parts-once", "the recursive instantiation of a frozen type answers a part it has already instantiated from a map keyed by the "
+           "part's address and records every variable it makes", n > 0 and not bad, where="crates/ide/src/ty/infer.rs",
+           how="%d recursive instantiator(s) of frozen types, each memoised by part" % n if n and not bad else ("; ".join(bad) or "no recursive instantiator of ty::Ty found"))
+
+
 TREE = {
     "ide::def::body::BodyLowerCtx::lower_expr": "descends the syntax tree of one function body (finite; depth = nesting, see C02/P5)",
     "ide::def::body::BodyLowerCtx::lower_pattern": "descends the syntax tree of one pattern",
@@ -566,6 +603,7 @@ TREE = {
     "ide::ty::infer::InferCtx::infer_expr": "descends the Body arena along child ids (tree)",
     "ide::ty::infer::InferCtx::infer_pattern": "descends the pattern arena along child ids (tree)",
     "ide::ty::infer::InferCtx::make_type": "descends a frozen ide::ty::Ty value, a finite tree of Arcs built by Collector",
+    "ide::ty::infer::InferCtx::make_type_shared": "descends a frozen ide::ty::Ty value, a finite DAG of Arcs built by Collector; parts already instantiated are answered from the map keyed by their addresses (Q18)",
     "<ide::ty::Ty as ide::ty::display::TyDisplay>::ty_fmt": "descends a frozen ide::ty::Ty value (finite tree)",
     "ide::ty::union_find::UnionFind::<T>::find": "follows parent links, which unify() only ever sets from one root to another root: acyclic, depth bounded by union-by-rank",
 }
